@@ -229,22 +229,23 @@ type Scenario struct {
 	AlwaysPreco          bool              // write the monthly precipitation-correction table even if the correction is off (a batch line may switch it on)
 	PrecoFactors         [12]float64
 	// WeatherFault (C04): the weather input does not cover the whole simulation ("", ends_early, gap, missing_year, starts_late)
-	WeatherFault  string
-	FaultFrom     Date // first day without a record
-	FaultTo       Date // last day without a record
-	OutInterval   int
-	ResultFormat  int // 0 hermes fixed width, 1 csv
-	ResultExt     string
-	MgmtEvents    int
-	AutoSow       bool
-	AutoFert      bool
-	AutoIrr       bool
-	AutoHarvest   bool
-	TillCollision bool     `json:",omitempty"` // rewritten around the observed harvest: postponed tillage meets the next one
-	Automan       []string // lines of automan.txt (without header)
-	AutoRows      map[string]*AutoRow
-	CropParamYml  bool
-	VirtualDate   string
+	WeatherFault         string
+	FaultFrom            Date // first day without a record
+	FaultTo              Date // last day without a record
+	OutInterval          int
+	ResultFormat         int // 0 hermes fixed width, 1 csv
+	ResultExt            string
+	MgmtEvents           int
+	AutoSow              bool
+	AutoFert             bool
+	AutoIrr              bool
+	AutoHarvest          bool
+	TillCollision        bool     `json:",omitempty"` // rewritten around the observed harvest: postponed tillage meets the next one
+	PermanentAfterAnnual bool     `json:",omitempty"` // a block of grass / alfalfa cuts follows annual crops
+	Automan              []string // lines of automan.txt (without header)
+	AutoRows             map[string]*AutoRow
+	CropParamYml         bool
+	VirtualDate          string
 
 	Tightened  bool // C16: rewritten around the observed first harvest (see c16Scenario)
 	DailyCols  []OutCol
@@ -1007,6 +1008,14 @@ func genWeather(sc *Scenario, r *Rng, p Profile) {
 	}
 	w.WindHeight = pickFloat(r, []float64{2, 2, 10, 3, 1.5})
 	w.Altitude = sc.Altitude
+	// the station line of a three-line header carries its own altitude: in half of those files it differs from the configured
+	// one (the header wins), in a sixth it lies below sea level (written with a leading minus sign)
+	if ra := NewRng(mix(mix(sc.Seed, uint64(sc.Index)), 4141)); w.NumHeader == 3 && ra.Bool(0.5) {
+		w.Altitude = float64(ra.Range(0, 3000))
+		if ra.Bool(0.33) {
+			w.Altitude = -float64(ra.Range(1, 420))
+		}
+	}
 	w.Code = pickS(r, []string{"W1", "109_120", "ST", "NEU"})
 	w.Folder = pickS(r, []string{"wx", "historical", "scen_a"})
 	w.HasSun = r.Bool(0.5)
@@ -1033,6 +1042,11 @@ func genWeather(sc *Scenario, r *Rng, p Profile) {
 		// only where the run is not prolonged beyond its end date (annual output date of the end year before the end date)
 		if a := (Date{sc.End.Y, sc.AnnualMonth, sc.AnnualDay}); a.Zeit() < sc.End.Zeit() {
 			lastDay = sc.End.AddDays(r7.Range(4, 40))
+			// 40 % of them: the last year is all but complete - the series stops on one of the last days of December of
+			// the end year (a leap year then holds exactly 365 records when it stops on 30 December)
+			if dec := (Date{sc.End.Y, 12, pickI(r7, []int{30, 30, 31, 29, 28, 25})}); r7.Bool(0.4) && dec.Zeit() >= sc.End.Zeit()+2 {
+				lastDay = dec
+			}
 			w.EndsMidYear = true
 		}
 	}
@@ -1283,8 +1297,34 @@ func genRotation(sc *Scenario, r *Rng, p Profile) {
 			sow = harv.AddDays(1)
 		}
 	}
+	// a permanent crop may also follow annual crops (draws of their own, so that all other cases stay as they were): after the
+	// 1st-3rd annual crop a block of grass / alfalfa cuts is grown; the annual crop before it is mostly a legume and mostly
+	// taken off green (harvested 55-100 days after a spring sowing / in spring after an autumn sowing), i.e. while it is
+	// still growing, taking up and fixing N
+	rp := NewRng(mix(mix(sc.Seed, uint64(sc.Index)), 909))
+	midPerm, midAt := rp.Bool(p.Permanent*0.8), rp.Range(1, 3)
+	nAnnual := 0
 	for len(sc.Rotation) < 12 {
+		if midPerm && nAnnual == midAt {
+			code := pickS(rp, []string{"GR", "GR", "AA"})
+			sow := cur.AddDays(rp.Range(1, 25))
+			if rp.Bool(0.5) {
+				sow = nextDOY(cur.AddDays(rp.Range(4, 30)), rp.Range(70, 110))
+			}
+			for k, cuts := 0, rp.Range(1, 3); k < cuts; k++ {
+				harv := sow.AddDays(rp.Range(50, 95))
+				sc.Rotation = append(sc.Rotation, RotEntry{Crop: code, Sow: sow, Harvest: harv, Rex: pickI(rp, []int{0, 100})})
+				cur = harv
+				sow = harv.AddDays(1)
+			}
+			sc.PermanentAfterAnnual = true
+			nAnnual++
+			continue
+		}
 		ci := pickCrop()
+		if midPerm && nAnnual == midAt-1 && len(crops) == 0 && rp.Bool(0.6) {
+			ci = cropInfo(pickS(rp, []string{"SOY", "LUP", "LUP"}))
+		}
 		sow := nextDOY(cur.AddDays(r.Range(4, 40)), r.Range(ci.SowLo, ci.SowHi))
 		var harv Date
 		hd := r.Range(ci.HarvLo, ci.HarvHi)
@@ -1293,6 +1333,14 @@ func genRotation(sc *Scenario, r *Rng, p Profile) {
 		} else {
 			harv = nextDOY(sow.AddDays(40), hd)
 		}
+		if midPerm && nAnnual == midAt-1 && rp.Bool(0.7) {
+			if ci.Winter {
+				harv = nextDOY(Date{sow.Y, 12, 31}, rp.Range(100, 150))
+			} else {
+				harv = sow.AddDays(rp.Range(55, 100))
+			}
+		}
+		nAnnual++
 		e := RotEntry{Crop: ci.Code, Sow: sow, Harvest: harv, Rex: pickI(r, []int{0, 100, 80, 50, 30, 200}), Yld: 0}
 		if len(ci.Varieties) > 0 && r.Bool(0.5) {
 			e.Variety = pickS(r, ci.Varieties)
